@@ -208,6 +208,12 @@ pub fn run(args: &Args) -> i32 {
             break;
         }
         let mut srng = rng.fork(si);
+        if let Some(only) = args.get_str("only_session") {
+            // replay aid: run one session of the sequence (the others only advance the rng)
+            if only.parse::<u64>().ok() != Some(si) {
+                continue;
+            }
+        }
         run_session(&mut srng, si, ops, &mut r);
         let panics = hooks::take_panics();
         for p in panics {
@@ -215,7 +221,7 @@ pub fn run(args: &Args) -> i32 {
             r.c11.violation(
                 &format!("node_thread_panicked@{}:{}:{}", p.thread, file, p.message.chars().take(60).collect::<String>()),
                 format!("thread '{}' panicked at {}: {}", p.thread, p.location, p.message),
-                json!({"session": si}),
+                json!({"session": si, "in_repo_frames": p.frames}),
             );
         }
     }
